@@ -203,6 +203,8 @@ type Cluster struct {
 	observer        *SimNode
 	synthetic       bool
 	synthNears      [][2]string
+	hostileSeen     bool
+	ffAccepted      *ffTriple
 	syn             *synthState
 	synTxn          int
 	refDag          *refDag
@@ -467,6 +469,10 @@ func (c *Cluster) startNode(n *SimNode, bootstrap bool) error {
 // policyAccept is the application's (deterministic, network-wide) decision on
 // a membership transaction.
 func (c *Cluster) policyAccept(itx *hg.InternalTransaction) bool {
+	if itx.Body.Type == hg.PEER_ADD && c.byPub[strings.ToUpper(itx.Body.Peer.PubKeyString())] == nil {
+		// the application knows its applicants: a key nobody has heard of is refused
+		return false
+	}
 	if strings.HasPrefix(c.policy, "refuse:") {
 		var idx int
 		fmt.Sscanf(c.policy, "refuse:%d", &idx)
@@ -541,9 +547,29 @@ func (c *Cluster) runWakeups() {
 	for len(c.wakeups) > 0 {
 		w := c.wakeups[0]
 		c.wakeups = c.wakeups[1:]
-		w()
+		// In production the answer to a join / leave promise is sent on a channel
+		// of capacity 2 from inside the commit, under the core lock. If nobody
+		// will ever receive it, that send never returns and the node is wedged.
+		done := false
+		go func() {
+			w()
+			done = true
+		}()
 		synctest.Wait()
+		if !done {
+			c.violate(c.wedgeProp(), "no-wedge", "promise-answer-blocks-under-core-lock", "the answer to a join/leave promise cannot be delivered (nobody listens and the channel is full): in production this send happens inside the commit under the core lock and never returns, the node stops answering every request")
+			c.stats.probe("promise-answer-blocked")
+		}
 	}
+}
+
+// wedgeProp: a node that stops answering is C08's subject when network input
+// of a hostile peer was involved, otherwise reported like a panic.
+func (c *Cluster) wedgeProp() string {
+	if c.hostileSeen {
+		return "C08"
+	}
+	return "PANIC"
 }
 
 func (c *Cluster) cleanup() {
